@@ -112,6 +112,7 @@ type c17Res struct {
 	malformed  string
 	abandoned  bool // cancelled, and the handler had not returned 3 simulated seconds later
 	cancelled  bool // the client cancelled before the answer was complete: nothing is stated but "what arrived is a prefix"
+	noReason   bool // the model output ends with the reason that has no name: a complete answer carries no reason
 }
 
 type c17Case struct {
@@ -482,7 +483,7 @@ func (cw *c17World) issue(c *c17Case, way int) *c17Res {
 	}
 	c.seenClass[key] = true
 	c.cur = p
-	r := &c17Res{way: way, plan: p}
+	r := &c17Res{way: way, plan: p, noReason: c.done == llm.DoneReasonConnectionClosed}
 	ctx := context.Background()
 	cancelArm := false
 	if c.fail == failNone && verifsim.Draw("client-cancel", 12) == 0 {
@@ -782,7 +783,7 @@ func (r *c17Res) addOpenAI(data []byte, stream bool) {
 	if m.Usage != nil && (m.Usage.TotalTokens != 0 || !stream) {
 		r.promptEval, r.evalCount, r.haveCounts = m.Usage.PromptTokens, m.Usage.CompletionTokens, true
 	}
-	if !stream && r.doneReason != "" {
+	if !stream && (r.doneReason != "" || r.noReason && len(m.Choices) > 0) {
 		r.finals++ // a non-streamed completion is final when it says why it finished
 	}
 }
@@ -877,8 +878,14 @@ func (cw *c17World) drawCase(id int) *c17Case {
 	c.user = "Please answer " + c.marker() + " " + c17Text(d("umb", 3) == 0, 4)
 	cw.drawOutput(c)
 	c.done = llm.DoneReasonStop
-	if d("length", 4) == 0 {
+	switch d("length", 8) {
+	case 0, 1:
 		c.done = llm.DoneReasonLength
+	case 2:
+		// the runner's third reason ("connection closed"): the native final message then
+		// carries no done_reason and the OpenAI one a null finish_reason
+		c.done = llm.DoneReasonConnectionClosed
+		verifsim.Probe("done_reason_closed")
 	}
 	c.pe = 1 + d("pe", 40)
 	c.ec = len([]rune(c.out))/3 + 1
@@ -1164,7 +1171,11 @@ func (cw *c17World) comparePair(c *c17Case, a, b *c17Res, rel, where string) {
 			ra = mappedReason(ra, len(a.tools))
 		}
 	}
-	if ra != rb {
+	// The runner's nameless reason (llm.DoneReasonConnectionClosed) is a legal value of the
+	// interface, but no real runner ever delivers it to the server (the runner's handler
+	// returns without a final message once its client has gone): with it no way of asking
+	// states a reason, and how "tool_calls" is substituted for nothing is not compared.
+	if ra != rb && c.done != llm.DoneReasonConnectionClosed {
 		cw.violate(c, "stream", sig("done_reason"), "%s: done/finish reason differs: %q vs %q", what, a.doneReason, b.doneReason)
 	}
 	if a.haveCounts && b.haveCounts && (a.promptEval != b.promptEval || a.evalCount != b.evalCount) {
